@@ -1,4 +1,5 @@
 import DoviModel.Proofs.PqReal
+import DoviModel.Gen.SourceRules
 /-!
 # C19 — PQ ↔ nits conversions are exact inverses on code values and match ST 2084
 
@@ -146,5 +147,16 @@ theorem summary_rounding :
 /-- the documented pairs: code 2081 ↦ 100 nits, 2851 ↦ 600, 3079 ↦ 1000, 3696 ↦ 4000, 4095 ↦ 10000 -/
 example : nitsRound100 2081 = 1 ∧ nitsRound100 2851 = 6 ∧ nitsRound100 3079 = 10 ∧
     nitsRound1000 3079 = 1 ∧ nitsRound1000 3696 = 4 ∧ nitsRound1000 4095 = 10 := by decide +kernel
+
+
+/-- **source tie**: the ST 2084 constants of utils.rs (`ST2084_M1 … C3`, `ST2084_Y_MAX`), evaluated as exact
+fractions from the source text on every run, are the rationals the certified table and the real-number theorems use -/
+theorem source_st2084_constants_agree :
+    Dovi.Src.st2084_m1.1 * Dovi.PqTable.m1.2 = Dovi.PqTable.m1.1 * Dovi.Src.st2084_m1.2 ∧
+    Dovi.Src.st2084_m2.1 * Dovi.PqTable.m2.2 = Dovi.PqTable.m2.1 * Dovi.Src.st2084_m2.2 ∧
+    Dovi.Src.st2084_c1.1 * Dovi.PqTable.c1.2 = Dovi.PqTable.c1.1 * Dovi.Src.st2084_c1.2 ∧
+    Dovi.Src.st2084_c2.1 * Dovi.PqTable.c2.2 = Dovi.PqTable.c2.1 * Dovi.Src.st2084_c2.2 ∧
+    Dovi.Src.st2084_c3.1 * Dovi.PqTable.c3.2 = Dovi.PqTable.c3.1 * Dovi.Src.st2084_c3.2 ∧
+    Dovi.Src.st2084_y_max = (10000, 1) := by decide
 
 end Dovi.C19
